@@ -157,3 +157,55 @@ Print Assumptions C16_ver_le_dotted.
 Theorem C16_ver_lt_dotted : forall a b : list N, a <> [] -> b <> [] -> length a = length b -> ver_lt (dotted a) (dotted b) = match cmp_list N.compare a b with | Lt => true | _ => false end.
 Proof. exact ver_lt_dotted. Qed.
 Print Assumptions C16_ver_lt_dotted.
+
+(* ---- Proofs.TaggedFacts ---- *)
+From Coq Require Import List Bool NArith ZArith Arith.
+From BV Require Import Lib.PyStr Lib.Decimal Lib.Regex Model.Pep440 Proofs.CalverE2E Proofs.TaggedFacts.
+Import ListNotations.
+Theorem C16_parse_tagged_sep : forall (v : bool) (ds : list (list N)) (sep : list N) (t : btag) (num : list N), ds <> [] -> Forall dstr ds -> sep_ok sep -> all_digits num = true -> parse_pep440 (tagged v ds sep t num) = Some (tag_pver (map undec ds) t (undec num)).
+Proof. exact parse_tagged_sep. Qed.
+Print Assumptions C16_parse_tagged_sep.
+
+Theorem C16_is_pep440_tagged : forall (v : bool) (ds : list (list N)) (sep : list N) (t : btag) (num : list N), ds <> [] -> Forall dstr ds -> sep_ok sep -> all_digits num = true -> is_pep440 (tagged v ds sep t num) = true.
+Proof. exact is_pep440_tagged. Qed.
+Print Assumptions C16_is_pep440_tagged.
+
+Theorem C16_to_pep440_tagged_sep : forall (v : bool) (ds : list (list N)) (sep : list N) (t : btag) (num : list N), ds <> [] -> Forall dstr ds -> sep_ok sep -> all_digits num = true -> to_pep440 (tagged v ds sep t num) = DottedFacts.dotted (map undec ds) ++ canon_suffix t (undec num).
+Proof. exact to_pep440_tagged_sep. Qed.
+Print Assumptions C16_to_pep440_tagged_sep.
+
+Theorem C16_tag_rank_lt : forall (v v' : bool) (ds : list (list N)) (sep sep' : list N) (t1 t2 : btag) (n m : list N), ds <> [] -> Forall dstr ds -> sep_ok sep -> sep_ok sep' -> all_digits n = true -> all_digits m = true -> (rank t1 < rank t2)%N -> ver_lt (tagged v ds sep t1 n) (tagged v' ds sep' t2 m) = true /\ ver_lt (tagged v' ds sep' t2 m) (tagged v ds sep t1 n) = false.
+Proof. exact tag_rank_lt. Qed.
+Print Assumptions C16_tag_rank_lt.
+
+Theorem C16_tag_vs_final : forall (v v' : bool) (ds : list (list N)) (sep : list N) (t : btag) (n : list N), ds <> [] -> Forall dstr ds -> sep_ok sep -> all_digits n = true -> ver_lt (tagged v ds sep t n) (untagged v' ds) = (rank t <? rank_final)%N /\ ver_lt (untagged v' ds) (tagged v ds sep t n) = (rank_final <? rank t)%N.
+Proof. exact tag_vs_final. Qed.
+Print Assumptions C16_tag_vs_final.
+
+Theorem C16_tag_num_order : forall (v v' : bool) (ds : list (list N)) (sep sep' : list N) (t1 t2 : btag) (n m : list N), ds <> [] -> Forall dstr ds -> sep_ok sep -> sep_ok sep' -> all_digits n = true -> all_digits m = true -> rank t1 = rank t2 -> ver_lt (tagged v ds sep t1 n) (tagged v' ds sep' t2 m) = (undec n <? undec m)%N.
+Proof. exact tag_num_order. Qed.
+Print Assumptions C16_tag_num_order.
+
+Theorem C16_tag_order_strings : forall ds : list (list N), ds <> [] -> Forall dstr ds -> forall n1 n2 n3 n4 n5 : list N, all_digits n1 = true -> all_digits n2 = true -> all_digits n3 = true -> all_digits n4 = true -> all_digits n5 = true -> ver_lt (tagged false ds [45%N] Tdev n1) (tagged false ds [45%N] Talpha n2) = true /\ ver_lt (tagged false ds [45%N] Talpha n2) (tagged false ds [45%N] Tbeta n3) = true /\ ver_lt (tagged false ds [45%N] Tbeta n3) (tagged false ds [45%N] Trc n4) = true /\ ver_lt (tagged false ds [45%N] Trc n4) (join [46%N] ds) = true /\ ver_lt (join [46%N] ds) (tagged false ds [45%N] Tpost n5) = true.
+Proof. exact tag_order_strings. Qed.
+Print Assumptions C16_tag_order_strings.
+
+Theorem C16_tag_downgrade_general : forall (v v' : bool) (ds : list (list N)) (sep sep' : list N) (t1 t2 : btag) (n m : list N), ds <> [] -> Forall dstr ds -> sep_ok sep -> sep_ok sep' -> all_digits n = true -> all_digits m = true -> (rank t2 < rank t1)%N -> ver_lt (tagged v ds sep t1 n) (tagged v' ds sep' t2 m) = false.
+Proof. exact tag_downgrade_general. Qed.
+Print Assumptions C16_tag_downgrade_general.
+
+Theorem C16_preview_is_rc : forall (v : bool) (ds : list (list N)) (sep num : list N), ds <> [] -> Forall dstr ds -> sep_ok sep -> all_digits num = true -> version_key (tagged v ds sep Tpreview num) = version_key (tagged v ds sep Trc num).
+Proof. exact preview_is_rc. Qed.
+Print Assumptions C16_preview_is_rc.
+
+Theorem C16_alpha_is_a : forall (v : bool) (ds : list (list N)) (sep num : list N), ds <> [] -> Forall dstr ds -> sep_ok sep -> all_digits num = true -> version_key (tagged v ds sep Talpha num) = version_key (tagged v ds sep Ta num).
+Proof. exact alpha_is_a. Qed.
+Print Assumptions C16_alpha_is_a.
+
+Theorem C16_beta_is_b : forall (v : bool) (ds : list (list N)) (sep num : list N), ds <> [] -> Forall dstr ds -> sep_ok sep -> all_digits num = true -> version_key (tagged v ds sep Tbeta num) = version_key (tagged v ds sep Tb num).
+Proof. exact beta_is_b. Qed.
+Print Assumptions C16_beta_is_b.
+
+Theorem C16_tag_number_default : forall (v v' : bool) (ds : list (list N)) (sep sep' : list N) (t : btag), ds <> [] -> Forall dstr ds -> sep_ok sep -> sep_ok sep' -> version_key (tagged v ds sep t []) = version_key (tagged v' ds sep' t [48%N]).
+Proof. exact tag_number_default. Qed.
+Print Assumptions C16_tag_number_default.
